@@ -335,6 +335,13 @@ pub fn models_after(cfg: &BCfg, seq: &[u8], pos: usize) -> (Vec<BTreeMap<Vec<u8>
                 opened[mi] = true;
                 models[mi].remove(&cfg.maps[mi].keys[l.key as usize]);
             }
+            L_BULK_PUT => {
+                opened[mi] = true;
+                let nv = cfg.val_lens.len() as u8;
+                for (i, k) in cfg.maps[mi].keys.iter().enumerate() {
+                    models[mi].insert(k.clone(), cfg.value(l.map, i as u8, (l.val + i as u8) % nv));
+                }
+            }
             L_DB_SYNC_ALL | L_DB_SYNC_DATA | L_REOPEN | L_DROP_DB => {}
             _ => opened[mi] = true,
         }
@@ -426,6 +433,32 @@ pub fn c03(tier: &str, seed: u64) -> i32 {
         ("complete", J::Bool(st.complete)),
         ("wall_s", J::Num(t)),
     ]));
+    if ctx.run.violations.is_empty() {
+        // deeper histories over a smaller alphabet (one map): durability calls separated by several updates
+        let deep = BCfg {
+            letters: vec![
+                Letter { kind: L_PUT, map: 0, handle: H_FIRST, key: 0, val: 0 },
+                Letter { kind: L_PUT, map: 0, handle: H_FIRST, key: 1, val: 0 },
+                Letter { kind: L_DEL, map: 0, handle: H_FIRST, key: 0, val: 0 },
+                Letter { kind: L_DEL, map: 0, handle: H_FIRST, key: 1, val: 0 },
+                Letter { kind: L_FLUSH, map: 0, handle: H_FIRST, key: 0, val: 0 },
+                Letter { kind: L_SYNC_ALL, map: 0, handle: H_FIRST, key: 0, val: 0 },
+                Letter { kind: L_DB_SYNC_DATA, map: 0, handle: 0, key: 0, val: 0 },
+            ],
+            depth: if thorough { 7 } else { 6 },
+            maps: vec![cfg.maps[0].clone()],
+            ..cfg.clone()
+        };
+        let t0 = ctx.run.elapsed();
+        let st = explore_with(&deep, &mut ctx, JOB_C03_RUN, if thorough { 300.0 } else { 25.0 });
+        eprintln!("[C03] deep snapshots: sequences={} calls={} complete={} {:.1}s", st.sequences, st.calls, st.complete, ctx.run.elapsed() - t0);
+        ctx.runs.push(J::obj(vec![
+            ("label", J::s("deeper histories over 7 letters on one map (put/delete on 2 keys, flush, sync_all, db.sync_data): every Ok durability call is a crash point")),
+            ("depth", J::Int(deep.depth as i64)),
+            ("sequences", J::Int(st.sequences as i64)),
+            ("complete", J::Bool(st.complete)),
+        ]));
+    }
     for pick in [[0u8, 8, 1, 10], [4, 0, 14, 3], [7, 2, 13, 9]] {
         ctx.run.sample(J::Arr(pick.iter().map(|li| J::s(&cfg.label(&cfg.letters[*li as usize]))).collect()));
     }
@@ -971,11 +1004,10 @@ fn kind_name(k: u8) -> &'static str {
     }
 }
 
-pub fn c16(tier: &str, seed: u64) -> i32 {
-    let mut ctx = Ctx::new("C16", tier, seed, "fault_enumeration");
+/// the fault enumeration of C16 for one file geometry
+fn c16_geometry(ctx: &mut Ctx, label: &str, m0: BMap, val_lens: Vec<u32>, limit: f64, max_u: usize) -> (usize, bool) {
+    let seed = ctx.seed;
     let thorough = ctx.thorough();
-    ctx.pool = Pool::new(ctx.pool.size(), shim_env(), vec![]);
-    let m0 = std_map(KtId::Bytes, 65536, 2, 9, seed, "m");
     let updates = vec![
         Letter { kind: L_PUT, map: 0, handle: H_FIRST, key: 0, val: 0 },
         Letter { kind: L_PUT, map: 0, handle: H_FIRST, key: 0, val: 1 },
@@ -994,14 +1026,13 @@ pub fn c16(tier: &str, seed: u64) -> i32 {
         letters.push(Letter { kind: k, map: 0, handle: H_FIRST, key: 0, val: 0 });
     }
     let m1 = std_map(KtId::Vu64, 8, 1, 8, seed, "zz-last");
-    let cfg = BCfg { prop: "C16".into(), maps: vec![m0, m1], val_lens: vec![6, 300_000], letters, depth: 4, flags: 0, seed, reopen: vec![], other_params: Params::defaults() };
+    let cfg = BCfg { prop: "C16".into(), maps: vec![m0, m1], val_lens: val_lens.clone(), letters, depth: 4, flags: 0, seed, reopen: vec![], other_params: Params::defaults() };
     ctx.pool.reinit(vec![{
         let mut b = Buf::new();
         b.u8(JOB_B_CONFIG).bytes(&cfg.enc());
         b.0
     }]);
     // histories: all update sequences of length 1..=max_u, each followed by each durability call
-    let max_u = 3;
     let mut histories: Vec<Vec<u8>> = Vec::new();
     let mut level: Vec<Vec<u8>> = vec![vec![]];
     for _ in 0..max_u {
@@ -1023,7 +1054,6 @@ pub fn c16(tier: &str, seed: u64) -> i32 {
         level = next;
     }
     let t0 = ctx.run.elapsed();
-    let limit = if thorough { 600.0 } else { 40.0 };
     let mut complete = true;
     let mut hdone = 0usize;
     for chunk in histories.chunks(ctx.pool.size() * 2) {
@@ -1078,9 +1108,35 @@ pub fn c16(tier: &str, seed: u64) -> i32 {
             break;
         }
     }
-    eprintln!("[C16] histories={}/{} single_refusals={} double={} {:.1}s", hdone, histories.len(), ctx.run.get("single_refusals"), ctx.run.get("double_refusals"), ctx.run.elapsed() - t0);
+    eprintln!("[C16] {label}: histories={}/{} single_refusals={} double={} {:.1}s", hdone, histories.len(), ctx.run.get("single_refusals"), ctx.run.get("double_refusals"), ctx.run.elapsed() - t0);
     for h in histories.iter().take(3).chain(histories.iter().rev().take(2)) {
         ctx.run.sample(J::Arr(h.iter().map(|li| J::s(&cfg.label(&cfg.letters[*li as usize]))).collect()));
+    }
+    (hdone, complete)
+}
+
+pub fn c16(tier: &str, seed: u64) -> i32 {
+    let mut ctx = Ctx::new("C16", tier, seed, "fault_enumeration");
+    let thorough = ctx.thorough();
+    ctx.pool = Pool::new(ctx.pool.size(), shim_env(), vec![]);
+    // three geometries, so that each of the three files is in turn the largest (and the only one beyond a
+    // file-size limit): a 65536-bucket table; 300000-byte values on a 16-bucket table; 3000-byte keys on a 16-bucket table
+    let mut hdone = 0usize;
+    let mut complete = true;
+    let deep = if thorough { 3 } else { 2 };
+    let geoms: Vec<(&str, BMap, Vec<u32>, usize)> = vec![
+        ("table file largest (65536 buckets)", std_map(KtId::Bytes, 65536, 2, 9, seed, "m"), vec![6, 300_000], deep),
+        ("value file largest (16 buckets, 300000-byte values)", std_map(KtId::Bytes, 16, 2, 9, seed, "m"), vec![6, 300_000], 3),
+        ("key file largest (16 buckets, 3000-byte keys)", std_map(KtId::Bytes, 16, 2, 3000, seed, "m"), vec![1, 9], 3),
+    ];
+    let per = if thorough { 400.0 } else { 25.0 };
+    for (label, m0, vl, max_u) in geoms {
+        let (h, c) = c16_geometry(&mut ctx, label, m0, vl, per, max_u);
+        hdone += h;
+        complete = complete && c;
+        if !ctx.run.violations.is_empty() {
+            break;
+        }
     }
     let evals = ctx.run.get("single_refusals") + ctx.run.get("double_refusals") + ctx.run.get("rlimit_thresholds");
     ctx.run.set("evaluations", J::Int(evals));
@@ -1219,6 +1275,8 @@ pub fn c18_whole_histories(ctx: &mut Ctx) {
     let thorough = ctx.thorough();
     let mut letters = letters_updates_reads(0, 2, 3, &[H_FIRST], false);
     letters.push(Letter { kind: L_FLUSH, map: 0, handle: H_FIRST, key: 0, val: 0 });
+    // a bulk call: the order in which it applies its pairs must not depend on the process
+    letters.push(Letter { kind: L_BULK_PUT, map: 0, handle: H_FIRST, key: 0, val: 0 });
     let cfg = BCfg { prop: "C18".into(), maps: vec![std_map(KtId::Bytes, 8, 2, 11, seed, "m")], val_lens: vec![4, 40, 70_000], letters, depth: if thorough { 5 } else { 4 }, flags: F_RETURN_IMAGES, seed, reopen: vec![], other_params: Params::defaults() };
     ctx.pool.reinit(vec![{
         let mut b = Buf::new();
